@@ -46,9 +46,11 @@ def summary_no_pairs(line):
     return verdict(line)
 
 
-def make_cases(rng, n, scenarios=None, tweak=None):
+def make_cases(rng, n, scenarios=None, tweak=None, matrix=False):
     g, keys, consts_hex = setup_env(rng)
     cases = []
+    if matrix:
+        cases += condgen.matrix_cases(g)
     for _ in range(n):
         c = g.scenario(rng.choice(scenarios) if scenarios else None)
         if tweak:
